@@ -1,4 +1,170 @@
 import Model.Base.Proto
+import Model.Proc.FilterEval
+import Model.Spec.FilterSem
 
-/-- stub: replaced when the property's driver is built -/
-def main : IO Unit := pure ()
+namespace Driver.C06
+open Proto Proc.FilterEval
+
+/- Line protocol (see harness/c06/main.go)
+   case <id> kind=f|p expr=<hex> tree=<prefix tree | !> re=<id:valhex:0|1,… | -> name=<hex>
+        cfg=<k:v,…|-> units=<hexlist> vals=<u[.o],…|-> [projs=<proj;proj…>] tag=…
+   tree:  A<k>.<t1>.….<tk> | O<k>.… | N.<t> | L.<keyhex>.<lithex>.<off> | R.<keyhex>.<id>.<off>
+   proj:  field+field…   field: <keyhex> | <keyhex>@<hex>/<hex>… | <keyhex>@-
+   obs  <id> new=… perr=… pv=… n=… test=… oob=… all=… any=… apply=… flag=… omiss=… glue=ok
+   spec <id> test=… apply=… flag=…
+-/
+
+def parseCfg (s : String) : List (Bytes × Bytes) :=
+  if s == "-" then [] else
+  (s.splitOn ",").filterMap fun kv =>
+    match kv.splitOn ":" with
+    | [k, v] => match Bytes.ofHex k, Bytes.ofHex v with
+      | some k, some v => some (k, v)
+      | _, _ => none
+    | _ => none
+
+def parseVals (units : List Bytes) (s : String) : List Value :=
+  if s == "-" then [] else
+  let items := s.splitOn ","
+  (items.zipIdx).map fun (it, i) =>
+    match it.splitOn "." with
+    | [u] => { unit := units.getD (u.toNat?.getD 0) [], origUnit := [], payload := i }
+    | [u, o] => { unit := units.getD (u.toNat?.getD 0) [], origUnit := units.getD (o.toNat?.getD 0) [], payload := i }
+    | _ => { unit := [], origUnit := [], payload := i }
+
+/-- prefix-notation tree; returns the tree and the unread tokens -/
+partial def parseTree : List String → Option (Filter × List String)
+  | [] => none
+  | t :: rest =>
+    if t == "N" then
+      match parseTree rest with
+      | some (e, r) => some (.not e, r)
+      | none => none
+    else if t == "L" then
+      match rest with
+      | k :: v :: o :: r =>
+        match Bytes.ofHex k, Bytes.ofHex v, o.toNat? with
+        | some k, some v, some o => some (.mtch k o (.lit v), r)
+        | _, _, _ => none
+      | _ => none
+    else if t == "R" then
+      match rest with
+      | k :: i :: o :: r =>
+        match Bytes.ofHex k, i.toNat?, o.toNat? with
+        | some k, some i, some o => some (.mtch k o (.re i), r)
+        | _, _, _ => none
+      | _ => none
+    else if t.startsWith "A" || t.startsWith "O" then
+      match (t.drop 1).toString.toNat? with
+      | none => none
+      | some k =>
+        let rec many (k : Nat) (toks : List String) (acc : List Filter) : Option (List Filter × List String) :=
+          match k with
+          | 0 => some (acc.reverse, toks)
+          | k + 1 =>
+            match parseTree toks with
+            | some (e, r) => many k r (e :: acc)
+            | none => none
+        match many k rest [] with
+        | some (es, r) => some (if t.startsWith "A" then .and es else .or es, r)
+        | none => none
+    else none
+
+def parseOracle (s : String) : List (Nat × Bytes × Bool) :=
+  if s == "-" then [] else
+  (s.splitOn ",").filterMap fun e =>
+    match e.splitOn ":" with
+    | [i, v, a] => match i.toNat?, Bytes.ofHex v with
+      | some i, some v => some (i, v, a == "1")
+      | _, _ => none
+    | _ => none
+
+def parseField (s : String) : Option ProjField :=
+  match s.splitOn "@" with
+  | [k] => (Bytes.ofHex k).map fun k => { key := k, fixed := none }
+  | [k, l] =>
+    match Bytes.ofHex k with
+    | none => none
+    | some k =>
+      if l == "-" then some { key := k, fixed := some [] }
+      else ((l.splitOn "/").mapM Bytes.ofHex).map fun l => { key := k, fixed := some l }
+  | _ => none
+
+def parseProjs (s : String) : List (List ProjField) :=
+  if s == "" || s == "-" then [] else
+  (s.splitOn ";").map fun p => (p.splitOn "+").filterMap parseField
+
+/-- every (regexp leaf, value) pair the evaluation may ask the oracle about -/
+partial def queries (res : Res) : Filter → List (Nat × Bytes)
+  | .and es => es.flatMap (queries res)
+  | .or es => es.flatMap (queries res)
+  | .not e => queries res e
+  | .mtch _ _ (.lit _) => []
+  | .mtch key _ (.re id) =>
+    if key == Proc.Extract.dotUnit then
+      res.values.flatMap fun v => (id, v.unit) :: (if v.origUnit != [] then [(id, v.origUnit)] else [])
+    else if key == Proc.Extract.dotConfig || key.isEmpty then []
+    else [(id, keyValue key res)]
+
+def bits (n : Nat) (f : Nat → Bool) : String :=
+  if n == 0 then "-" else String.ofList ((List.range n).map fun i => if f i then '1' else '0')
+
+def showIdx (l : List Value) : String :=
+  if l.isEmpty then "-" else ",".intercalate (l.map fun v => toString v.payload)
+
+def b01 (b : Bool) : String := if b then "1" else "0"
+
+def handle (l : Line) : IO Unit := do
+  if l.kind != "case" then return
+  let id := l.id
+  let kind := l.getD "kind" "f"
+  let name := (l.bytes? "name").getD []
+  let cfg := parseCfg (l.getD "cfg" "-")
+  let units := (l.hexList? "units").getD []
+  let vals := parseVals units (l.getD "vals" "-")
+  let res : Res := { name := name, config := cfg, values := vals }
+  let table := parseOracle (l.getD "re" "-")
+  let re : ReOracle := fun i v => table.any fun t => t.1 == i && t.2.1 == v && t.2.2
+  let treeS := l.getD "tree" "!"
+  if treeS == "!" then
+    IO.println s!"obs {id} new=!syntax"
+    return
+  let some (e, []) := parseTree (treeS.splitOn ".") | IO.println s!"obs {id} new=!badtree"
+  match walk re e with
+  | .error (.config off) => IO.println s!"obs {id} new=!config@{off}"
+  | .error (.emptyKey off) => IO.println s!"obs {id} new=!emptykey@{off}"
+  | .ok user =>
+    let projs := parseProjs (l.getD "projs" "-")
+    -- projections: errors first (the harness stops at the first failing Parse)
+    let perr := projs.findSome? fun fs => match checkFields fs with
+      | .error e => some e
+      | .ok () => none
+    if kind == "p" then
+      if let some pe := perr then
+        let s := match pe with
+          | .fixedConfig => "fixedconfig" | .unitKey => "unit" | .emptyKey => "emptykey"
+        IO.println s!"obs {id} new=ok perr={s}"
+        return
+    let excl := fullnameKeysOf projs
+    let f : FilterFn := parseAll excl projs user
+    let pv := (projs.flatten.filter (·.key != Proc.Extract.dotConfig)).map fun fld => projValue excl fld.key res
+    let mt := filterMatch f res
+    let n := mt.n
+    let ap := mt.apply res.values
+    let ap2 := filterApply f res
+    let need := queries res e
+    let omiss := (need.filter fun q => !(table.any fun t => t.1 == q.1 && t.2.1 == q.2)).length
+    let oob := String.ofList ([(-1 : Int), n, n + 1, n + 31, n + 32].map fun i => if mt.testInt i then '1' else '0')
+    IO.println s!"obs {id} new=ok perr=none pv={showHexList pv} n={n} test={bits n mt.test} oob={oob} all={b01 mt.all} any={b01 mt.any} apply={showIdx ap.1} flag={b01 ap.2} fapply={showIdx ap2.1.values} fflag={b01 ap2.2} omiss={omiss} glue=ok"
+    -- S layer: the specification
+    let den : Nat → Bool := fun i =>
+      Spec.FilterSem.denote re res i e && projs.flatten.all fun fld => Spec.FilterSem.inFixed excl fld res
+    let keptS := Spec.FilterSem.keepIdx den res.values
+    let flagS := if n == 0 then "n0" else b01 (!keptS.isEmpty)
+    IO.println s!"spec {id} pv={showHexList pv} test={bits n den} apply={showIdx keptS} flag={flagS}"
+
+end Driver.C06
+
+def main : IO Unit := do
+  let stdin ← IO.getStdin
+  Proto.forEachLine stdin fun s => Driver.C06.handle (Proto.parseLine s)
